@@ -992,6 +992,7 @@ void race(const RaceScn &sc)
   const int64_t expOld = W0 + SEC;
   Stamp ws;
   bool wrote = false;
+  const std::string wname = sc.writer == 0 ? "set" : sc.writer == 1 ? "set-ttl" : sc.writer == 2 ? "remove" : "none";
   std::string firstBad; // set by the reader thread; reported by main (fail() must run with the world intact)
   std::string firstBadSig;
   auto flag = [&](const std::string &sig, const std::string &detail)
@@ -1090,7 +1091,7 @@ void race(const RaceScn &sc)
       mc_label("reader:sleep");
       std::this_thread::sleep_for(std::chrono::seconds(sc.actAtSec));
       mc_label("reader:read");
-      for (int round = 0; round < 2; ++round)
+      for (int round = 0; round < 1; ++round)
       {
         Stamp r;
         if (sc.reader == 0)
@@ -1181,7 +1182,7 @@ void race(const RaceScn &sc)
   writer.join();
   reader.join();
   if (!firstBad.empty())
-    fail("race-read-legal", firstBadSig + ":writer=" + (sc.writer == 0 ? "set" : sc.writer == 1 ? "set-ttl" : sc.writer == 2 ? "remove" : "none"), firstBad);
+    fail("race-read-legal", firstBadSig + ":writer=" + wname, firstBad);
   // ---- final state: exactly the writer's, now, after the stale timer had every chance to fire, and after a restart
   w.ref.clear();
   w.ref["ab"] = RefEntry{"keep", false, 0};
@@ -1201,20 +1202,77 @@ void race(const RaceScn &sc)
   mc_obs("writer %llu..%llu ambiguous=%d", (unsigned long long)ws.s0, (unsigned long long)ws.s1, int(ambiguous));
   if (!ambiguous)
   {
-    w.lastOp = "race";
-    snapshotPre(w);
+    // Light final checks (few scheduling points: every point of the driver is a place where the explorer may
+    // spend a deviation).  If virtual time moves inside a check (timer deviation) the check is repeated.
+    auto lightCheck = [&](const char *phase)
+    {
+      for (int attempt = 0; attempt < 4; ++attempt)
+      {
+        const int64_t W = wallNow();
+        purge(w, W);
+        auto g = w.kv->get("a");
+        bool ex = w.kv->exists("a");
+        auto t = w.kv->ttl("a");
+        auto gb = w.kv->get("ab");
+        size_t n = w.kv->size();
+        if (wallNow() != W)
+          continue;
+        const bool L = live(w, "a", W);
+        std::string kind, detail;
+        if (g.has_value() != L || ex != L)
+        {
+          kind = L ? "live-key-missing" : (w.ghost.count("a") && w.ghost["a"] == G_EXPIRED ? "expired-key-visible" : "removed-key-visible");
+          detail = std::string("get: ") + (g ? show(toStr(*g)) : "absent") + ", exists: " + (ex ? "true" : "false") + ", expected " + (L ? show(w.ref["a"].val) : "absent");
+        }
+        else if (L && !same(*g, w.ref["a"].val))
+        {
+          kind = "value-mismatch";
+          detail = "get: " + show(toStr(*g)) + ", expected " + show(w.ref["a"].val);
+        }
+        else
+        {
+          bool expT = L && w.ref["a"].hasExp;
+          int64_t secs = expT ? (w.ref["a"].exp - W) / SEC : -1;
+          if (t.has_value() != expT || (expT && t->count() != secs))
+          {
+            kind = "ttl-mismatch";
+            detail = "ttl: " + (t ? std::to_string(t->count()) + "s" : std::string("none")) + ", expected " + (expT ? std::to_string(secs) + "s" : std::string("none"));
+          }
+          else if (!gb || toStr(*gb) != "keep")
+          {
+            kind = "bystander-lost";
+            detail = "the untouched permanent key 'ab' reads " + (gb ? show(toStr(*gb)) : std::string("absent"));
+          }
+          else if (n != size_t(L ? 2 : 1))
+          {
+            kind = "size-mismatch";
+            detail = "size() = " + std::to_string(n) + ", expected " + std::to_string(L ? 2 : 1);
+          }
+        }
+        mc_obs("%s: a=%s ttl=%lld size=%zu", phase, g ? show(toStr(*g)).c_str() : "-", t ? (long long)t->count() : -1ll, n);
+        if (!kind.empty())
+        {
+          char tb[64];
+          snprintf(tb, sizeof tb, " at wall +%.0f s", double(W - W0) / 1e9);
+          fail("race-final-state", kind + ":" + phase + ":writer=" + wname, std::string(phase) + tb + ": " + detail);
+        }
+        return;
+      }
+    };
     mc_quiesce(0);
-    w.lastOp = "race-settled";
-    compareAll(w, "after the race settled");
-    mc_quiesce(3 * uint64_t(SEC));
-    w.lastOp = "race+3s";
-    compareAll(w, "3 s after the race");
-    Op re = mk(O_REOPEN);
-    apply(w, re);
-    compareAll(w, "after close+reopen following the race");
-    mc_quiesce(30 * uint64_t(SEC));
-    w.lastOp = "race+30s";
-    compareAll(w, "30 s after the race");
+    lightCheck("settled");
+    mc_quiesce(30 * uint64_t(SEC)); // the stale timer, the clamped re-arm (16 s) and the new expiry (20 s) are all behind us
+    lightCheck("+30s");
+    try
+    {
+      w.kv.reset();
+      openStore(w);
+    }
+    catch (const std::exception &e)
+    {
+      fail("no-unexpected-exception", "reopen-after-race", e.what());
+    }
+    lightCheck("reopened");
   }
   mc_obs("final -> %s", summary.c_str());
   cleanupWorld(w);
